@@ -1,7 +1,7 @@
 (** Network area: witnesses (closed by [vm_compute], real AES-CMAC) for statements that are
     false of the faithful model, the decidable classes of the recorded findings, and
     non-vacuity examples on concrete small topologies. *)
-From Sci Require Import Network.Model Network.Spec Network.Aes.
+From Sci Require Import Network.Model Network.Spec Network.Aes Network.Proofs_Deliver Network.Proofs_Combined.
 Local Open Scope N_scope.
 
 (** C13-peer-link-segment-change: [validate_segment_change] accepts two pairs the
@@ -124,3 +124,31 @@ Lemma onehop_unchecked_refuted :
   (* expired *)
   /\ ref_onehop hop_mac sc_topo 900000 2 (oh_packet 0 1000) = RRejected 2 3.
 Proof. vm_compute. repeat split; reflexivity. Qed.
+
+(** non-vacuity of the topology hypothesis of [Props_C01.combined_path_delivers_partial]: the
+    two-segment path 4 -> 2 -> 1 -> 3 -> 5 over [peer_topo] at time 1100 satisfies [route_topo]
+    (so the theorem yields the delivery that [via_core_delivered_and_back] computes) *)
+Definition us_124 : list (@uentry cmac_key) :=
+    [mkUEntry 1 (kk 1) (mkUHop 63 0 1) [];
+     mkUEntry 2 (kk 2) (mkUHop 63 1 2) [(3, 3, mkUHop 63 3 2)];
+     mkUEntry 4 (kk 4) (mkUHop 63 1 0) []].
+Definition us_135 : list (@uentry cmac_key) :=
+    [mkUEntry 1 (kk 1) (mkUHop 63 0 2) [];
+     mkUEntry 3 (kk 3) (mkUHop 63 1 2) [(2, 3, mkUHop 63 3 2)];
+     mkUEntry 5 (kk 5) (mkUHop 63 1 0) []].
+Definition bu_124 := mkBuse 4660 1000 us_124 0 false.
+Definition bu_135 := mkBuse 22136 1000 us_135 0 true.
+Example route_topo_nonvacuous :
+  match g_hops (tseg_of hop_mac bu_124) with
+  | d :: r => route_topo peer_topo 1100 (tseg_of hop_mac bu_124) d r [tseg_of hop_mac bu_135] 5
+  | [] => False
+  end.
+Proof.
+  vm_compute.
+  repeat match goal with
+         | |- _ /\ _ => split
+         | |- exists _, _ => eexists
+         | |- _ = _ => reflexivity
+         | |- True => exact I
+         end.
+Qed.
